@@ -14,9 +14,17 @@ On the totally ordered trace:
   both hooks in exactly the reverse testSetUp order, never a base before a
   layer derived from it;
 * inside any test's bracket no layer outside the test's stack sees either hook;
-* per layer, over the whole run, the calls are balanced: no testTearDown without
+* per layer that has BOTH hooks (otherwise one side is invisible), over the
+  whole run, the calls are balanced: no testTearDown without
   an outstanding testSetUp, no second testSetUp while one is outstanding, none
   outstanding at the end.
+
+Around a test that does not start (skip by decorator) both "no hook at all" and
+"a balanced testSetUp/testTearDown pair" are accepted; only an unmatched call is
+a violation.  Known finding of the originally pinned tree (eb1b170, repaired in
+b947675): ``skip-by-decorator:testTearDown-without-testSetUp`` - unittest of
+CPython 3.12.1 reports addSkip + stopTest without startTest, and stopTest called
+the layers' testTearDown although testSetUp never ran.  The detection stays.
 
 Finding keys are ``<outcome kind of the test in whose bracket it happened>:
 <what is wrong>``; both decorator forms of skipping (method and class) share the
@@ -79,6 +87,11 @@ def check(world):
             cur, br = None, []
         elif e[0] == 'hook' and e[1] in ('testSetUp', 'testTearDown'):
             layer = e[2]
+            if cur is not None:
+                br.append(e)
+            if not (world.has_hook(layer, 'testSetUp') and
+                    world.has_hook(layer, 'testTearDown')):
+                continue    # only one side is observable: balance undecidable
             if e[1] == 'testSetUp':
                 if depth.get(layer, 0) >= 1:
                     flag(cur, 'testSetUp-twice-without-testTearDown',
@@ -93,8 +106,6 @@ def check(world):
                          'testSetUp' % layer)
                 else:
                     depth[layer] -= 1
-            if cur is not None:
-                br.append(e)
         elif cur is not None and e[0] in OWN:
             br.append(e)
     for layer, d in sorted(depth.items()):
@@ -169,6 +180,27 @@ def _check_bracket(world, tid, br, flag):
         if q != p[::-1]:
             flag(tid, 'testTearDown-not-reverse-of-testSetUp',
                  'testSetUp order %s, testTearDown order %s' % (p, q))
+
+
+def collapse(findings):
+    """one defect, one key: when a violation also shows around plainly passing
+    tests, the outcome kind is not part of its signature - all started-test
+    kinds collapse to ``any-outcome:<what>`` (smallest case kept)."""
+    special = ('skip-by-decorator', 'outside-test', 'runner-crash')
+    by_what = {}
+    for f in findings:
+        kind, _, what = f['key'].partition(':')
+        by_what.setdefault(what, {})[kind] = f
+    out = []
+    for what, kinds in sorted(by_what.items()):
+        if 'pass' in kinds:
+            started = [f for k, f in kinds.items() if k not in special]
+            best = min(started, key=lambda f: lw.spec_size(f['case']))
+            out.append(dict(best, key='any-outcome:' + what))
+            out.extend(f for k, f in sorted(kinds.items()) if k in special)
+        else:
+            out.extend(f for _, f in sorted(kinds.items()))
+    return out
 
 
 def nontrivial(world):
@@ -372,7 +404,7 @@ def run(budget_s, seed, tier='quick'):
                  '1-3 / --shuffle; runs per stage: %s'
                  % (len(ALL_KINDS), bound3, done),
         'samples': samples[:5],
-        'findings': findings.as_list(),
+        'findings': collapse(findings.as_list()),
         'notes': 'runner crashes (exception out of Runner.run): %d' % crashes,
     }
 
